@@ -508,10 +508,10 @@ func runReaders(c *simrun.Ctx) *simrun.Violation {
 		// current tree), a typed-nil oneof wrapper, a oneof wrapper with a nil
 		// message. Reads may panic on it (property C09's business); they must do
 		// so identically for the sequential reader and must not write.
-		kind := t.Draw("odd-kind", 3)
+		kind := t.Draw("odd-kind", 4)
 		if simval.OddShape(kind, t.Draw("odd-sel", 1<<16), shared, private, equalPeer) {
 			odd = true
-			st.Add([]string{"fault_nil_message_map_value", "fault_typed_nil_oneof_wrapper", "fault_oneof_wrapper_with_nil_message"}[kind], 1)
+			st.Add([]string{"fault_nil_message_map_value", "fault_typed_nil_oneof_wrapper", "fault_oneof_wrapper_with_nil_message", "fault_nil_element_in_repeated_message_field"}[kind], 1)
 		}
 	}
 	if md.Fields().Len() == 0 {
